@@ -180,7 +180,8 @@ class GlobalContext:
             path = self.rel_import_path
             if path.endswith("/__init__"):
                 path = os.path.dirname(path)
-            ctx_name = self.name
+            # relative imports are relative to the package, also when written in a member other than __init__.py
+            ctx_name = path.replace("/", ".")
             for _ in range(import_level - 1):
                 path = os.path.dirname(path)
                 idx = ctx_name.rfind(".")
